@@ -5,6 +5,7 @@ import (
 	"math"
 	"math/big"
 	"sort"
+	"sync"
 	"time"
 
 	"github.com/andydunstall/piko/pkg/gossip"
@@ -152,39 +153,80 @@ func init() {
 		}
 		states, transitions, seqs := 0, 0, 0
 		sigs := map[string]bool{}
+		// the tree of histories is split at its first two levels into independent
+		// subtrees, explored depth-first by a pool of workers
+		type subtree struct {
+			w    int
+			boot int64
+			q    bool
+			pre  []int64
+		}
+		var jobs []subtree
 		for _, w := range windows {
 			for _, boot := range []int64{2, 7} {
 				for _, q := range []bool{false, true} {
-					maxLen := w + extra
+					states += 1 + len(gaps) // the root and its children
+					transitions += len(gaps)
+					for _, g1 := range gaps {
+						for _, g2 := range gaps {
+							jobs = append(jobs, subtree{w, boot, q, []int64{g1, g2}})
+						}
+					}
+				}
+			}
+		}
+		var mu sync.Mutex
+		var wg sync.WaitGroup
+		jch := make(chan subtree, len(jobs))
+		for _, j := range jobs {
+			jch <- j
+		}
+		close(jch)
+		for k := 0; k < 16; k++ {
+			wg.Add(1)
+			go func() {
+				defer wg.Done()
+				for j := range jch {
+					maxLen := j.w + extra
+					st, tr, sq := 0, 1, 0 // the transition into this subtree's root
 					// depth-first over all gap sequences; a node of the tree is one
 					// arrival history, checked in full when it is a leaf (the
 					// check replays the history and validates after each arrival)
 					var rec func(prefix []int64)
 					rec = func(prefix []int64) {
-						states++
+						st++
 						if len(prefix) == maxLen {
-							seqs++
-							c := fdCase{W: w, Bootstrap: boot, Gaps: append([]int64(nil), prefix...), QueryOnly: q}
+							sq++
+							c := fdCase{W: j.w, Bootstrap: j.boot, Gaps: append([]int64(nil), prefix...), QueryOnly: j.q}
 							if sig, msg := runFDCase(c); sig != "" {
-								if !sigs[sig] || run.Violations() < 3 {
-									sigs[sig] = true
+								mu.Lock()
+								report := !sigs[sig] || run.Violations() < 3
+								sigs[sig] = true
+								mu.Unlock()
+								if report {
 									run.Violation("C12", sig, msg, map[string]any{"engine": "E3-C12", "case": c})
 								}
 							}
-							if seqs%5003 == 1 {
+							if sq%5003 == 1 {
 								run.Sample(c)
 							}
 							return
 						}
 						for _, g := range gaps {
-							transitions++
+							tr++
 							rec(append(prefix, g))
 						}
 					}
-					rec(nil)
+					rec(append([]int64(nil), j.pre...))
+					mu.Lock()
+					states += st
+					transitions += tr
+					seqs += sq
+					mu.Unlock()
 				}
-			}
+			}()
 		}
+		wg.Wait()
 		// "heard from": every delta datagram, whatever it carries (nothing, news,
 		// stale news, news about others), is a heartbeat of its sender
 		shapes := deltaShapes()
